@@ -28,6 +28,8 @@ def sel_bits(s):
 
 def gen(rng, k):
     kind = ("lattice", "lattice_noise", "two", "random", "clean", "fine", "sparse")[k % 7]
+    if k % 21 == 10:
+        kind = "offzero"
     a = np.array([rng.uniform(15, 35), rng.uniform(-4, 4)])
     b = np.array([rng.uniform(-4, 4), rng.uniform(15, 35)])
     if kind == "fine":   # fine-meshed: lattice vectors only a few tolerances long, re-matching may re-index the same peaks
@@ -59,6 +61,19 @@ def gen(rng, k):
             sel = rng.choice(len(grid), size=int(rng.integers(3, 8)), replace=False)
             pts += [zero + grid[s][0] * a2 + grid[s][1] * b2 for s in sel]
         pts += [zero + rng.uniform(-60, 60, 2) for _ in range(int(rng.integers(0, 4)))]
+    elif kind == "offzero":
+        # the zero point (first peak) sits a few pixels off the lattice the other peaks form (a poorly refined central beam),
+        # the low orders are missing (beam stop): the refit moves the origin away from the zero point
+        l0 = float(rng.uniform(18, 24))
+        a, b = np.array([0.0, l0]), np.array([l0, 0.0])
+        origin = rng.uniform(60, 70, 2)
+        order = [(2, -1), (2, 0), (2, 1), (3, -1), (3, 0), (3, 1), (-2, 0), (-2, 1), (-3, 0), (-2, -1), (-3, 1)]
+        sel = rng.choice(len(order), size=int(rng.integers(7, len(order) + 1)), replace=False)
+        off = np.array([0.0, float(rng.uniform(3, 5))]) * (1 if rng.random() < 0.5 else -1)
+        if rng.random() < 0.5:
+            a, b, off = b, a, off[::-1]
+        zero = origin + off
+        pts = [zero.copy()] + [origin + order[s_][0] * a + order[s_][1] * b for s_ in sel]
     elif kind == "sparse":
         # few points far apart compared with the tolerance, on integer coordinates, default-like parameters: the best
         # lattice explaining them is fine-meshed compared with the tolerance (high indices)
@@ -83,6 +98,10 @@ def gen(rng, k):
          "min_angle": float(rng.uniform(0.1, 0.5)), "min_delta": float(rng.choice([0, 5, 10])),
          "max_delta": float(rng.choice([np.inf, 80, 50])), "min_points": int(rng.choice([3, 10, 100])),
          "cand": None}
+    if kind == "offzero":
+        p["elev"] = np.ones(len(pts))
+        p.update({"tolerance": 3.0, "min_match": 3, "min_angle": float(np.pi / 10), "min_delta": 0.0,
+                  "max_delta": float("inf"), "min_points": 10})
     if kind == "fine":
         p.update({"tolerance": float(rng.uniform(2.0, 3.0)), "min_delta": 0.0, "max_delta": float("inf")})
     if kind == "sparse":
